@@ -54,6 +54,11 @@ Setup ==
             NR("b1", "generation", <<NamePL("ex", X)>>, << <<"entity", Ref(NamePL("ex", Y))>> >>, <<>>),
             NR("b1", "entity", <<NamePL("ex", X)>>, <<>>, <<>>),
             NR("b1", "agent", <<NameQN("zz", A, X)>>, <<>>, <<>>) >>
+    [] Scenario = "c18c" ->      \* d1 has a default namespace and a record named in it (bare); b1 has no default
+                                 \* of its own yet (it may adopt another one from a prefix-less name later)
+         SetupWorld \o
+         << [op |-> "SetDefault", h |-> "d1", u |-> A],
+            NR("d1", "entity", <<NameBare(X)>>, <<>>, <<>>) >>
     [] Scenario = "c09c" ->      \* d1 (bundle b1 with a record) has ALREADY been flattened once
          SetupWorld \o
          << NR("b1", "entity", <<NameQN("ex", A, X)>>, <<>>, <<>>),
@@ -141,9 +146,10 @@ IdSpellings == { <<NamePL("ex", X)>>, <<NameQN("zz", A, X)>>, <<NameUri(A \o X)>
                  <<NameQN("ex", A, BX)>>, <<NameQN("q", AB, X)>>,
                  <<NameQN("", C, X)>>,        \* a default namespace the container adopts from the name
                  <<NameBare(X)>>,             \* ... or has been given (SetDefault in the c18 menu)
-                 <<NameQN("", C, <<"ex">>)>> } \* a local name that reads like a bound prefix
+                 <<NameQN("", C, <<"ex">>)>>,  \* a local name that reads like a bound prefix
+                 <<NameQN("zz", C, X)>> }      \* a prefix seen before as an alias of another namespace
 RecMenu ==
-  CASE Scenario \in {"c18", "c18b"} ->
+  CASE Scenario \in {"c18", "c18b", "c18c"} ->
          { [k |-> "entity", id |-> i, formals |-> <<>>, extras |-> <<>>] : i \in IdSpellings }
          \cup { [k |-> "agent", id |-> <<NamePL("ex", X)>>, formals |-> <<>>, extras |-> <<>>],
                 [k |-> "generation", id |-> <<NamePL("ex", X)>>,
@@ -286,7 +292,7 @@ Menu ==
     [] Scenario = "c04d" -> IF Compared THEN {} ELSE ActsCompare
     [] Scenario = "c04b" -> ActsEdit04 \cup (IF Compared THEN {} ELSE ActsCompare)
     [] Scenario = "c04c" -> IF Compared THEN {} ELSE ActsNewRec \cup ActsGet04 \cup ActsCompare
-    [] Scenario \in {"c18", "c18b"} -> {[op |-> "SetDefault", h |-> h, u |-> C] : h \in {x \in Live : ms.mgr[ms.con[x].mgr].dflt \in {NONE, C}}}
+    [] Scenario \in {"c18", "c18b", "c18c"} -> {[op |-> "SetDefault", h |-> h, u |-> C] : h \in {x \in Live : ms.mgr[ms.con[x].mgr].dflt \in {NONE, C}}}
                            \cup ActsNewRec \cup ActsAddRecord \cup ActsUpdate \cup ActsAddBundle
                            \cup ActsDerive \cup ActsGet
     [] Scenario = "c09b" -> ActsNewRec \cup ActsUpdate \cup {a \in ActsDerive : a.op = "Flattened"}
